@@ -58,6 +58,70 @@ def normalise_renames(prog, Fn, inv):
     dump.  Same for a struct field whose name changed while its position and type did not.  Returns the list of renames."""
     renames = []
     fns = inv.get("fns", {})
+    # ---- renamed types: an ADT of the inventory vanished while exactly one new ADT with the same shape, kind, file and set of
+    # implemented traits appeared: its old path is restored in every path and type string of the dump first
+    type_map = {}
+    ameta = inv.get("adt_meta", {})
+    for crate in ("redproxy_rs", "milu"):
+        cur_adts = {crate + "::" + a["path"]: a for a in prog.items.get(crate, {}).get("adts", [])}
+        gone = [k for k in inv.get("adts", {}) if k.startswith(crate + "::") and k not in cur_adts and k in ameta]
+        fresh = [k for k in cur_adts if k not in inv.get("adts", {})]
+
+        def shape(a):
+            return [[v["name"], [[fl["name"], prog.types[crate][fl["ty"]]["s"]] for fl in v["fields"]]] for v in a["variants"]]
+
+        def traits_of(path):
+            return sorted(set(i.get("trait", "") for i in prog.items[crate]["impls"] if prog.types[crate][i["self_ty"]]["s"] == path))
+        for g in gone:
+            old_short = g.split("::", 1)[1]
+            c = []
+            for n in fresh:
+                a = cur_adts[n]
+                new_short = n.split("::", 1)[1]
+                sh = json.loads(json.dumps(shape(a)).replace(new_short, old_short).replace('"%s"' % new_short.split("::")[-1], '"%s"' % old_short.split("::")[-1]))
+                if a["span"]["f"] == ameta[g]["file"] and a["kind"] == ameta[g]["kind"] and sh == inv["adts"][g] and \
+                        [t.replace(new_short, old_short) for t in traits_of(new_short)] == ameta[g]["traits"]:
+                    c.append(n)
+            if len(c) == 1 and sum(1 for g2 in gone if ameta[g2] == ameta[g] and inv["adts"][g2] == inv["adts"][g]) == 1:
+                type_map[c[0].split("::", 1)[1]] = old_short
+                renames.append(("type " + c[0], g))
+    if type_map:
+        tolds = sorted(type_map, key=len, reverse=True)
+
+        def trn(sv):
+            for o in tolds:
+                if o in sv:
+                    sv = re.sub(r"(?<![\w])" + re.escape(o) + r"(?![\w])", type_map[o], sv)
+            return sv
+
+        def twalk(x):
+            if isinstance(x, dict):
+                for k in list(x.keys()):
+                    v = x[k]
+                    if isinstance(v, str):
+                        x[k] = trn(v)
+                    elif isinstance(v, (dict, list)):
+                        twalk(v)
+            elif isinstance(x, list):
+                for i, v in enumerate(x):
+                    if isinstance(v, str):
+                        x[i] = trn(v)
+                    elif isinstance(v, (dict, list)):
+                        twalk(v)
+        for crate in ("redproxy_rs", "milu"):
+            raw = prog.raw.get(crate)
+            if raw is None:
+                continue
+            twalk(raw["fns"])
+            twalk(raw["types"])
+            twalk(raw["items"])
+            prog.fns = {k: f for k, f in prog.fns.items() if f.crate != crate}
+            prog.by_crate[crate] = {}
+            for fj in raw["fns"]:
+                f = Fn(prog, crate, fj)
+                prog.fns[f.key] = f
+                prog.by_crate[crate][f.path] = f
+        prog._cg = prog._rcg = prog._impls_of = None
     cur = {k: f for k, f in prog.fns.items() if f.kind in ("Fn", "AssocFn")}
     missing = [k for k in fns if k not in cur and fns[k].get("sig")]
     new = [k for k in cur if k not in fns]
